@@ -542,29 +542,13 @@ def r2_r3_tokenizers(rep, src):
         rep.fail('C11.R3', '%s:%s' % (TK, rc['binding']), 'comma-list words are trimmed', 'a word can start or end with whitespace: %r' % w)
     else:
         rep.ok('C11.R3', '%s:%s' % (TK, rc['binding']), 'comma-list words are trimmed', 'no leading/trailing whitespace in a word')
-    # the value-line wrapper: comment predicate, continuation marker, newline
+    # the value-line wrapper: continuation marker, content, newline
     vt = src.func(TK + ':_value_line_tokenizer')
     inner = [n for n in vt.node.body if isinstance(n, ast.FunctionDef)]
     if len(inner) != 1:
         raise AnalysisError('%s: inner tokenizer not found' % vt.site)
-    loop = [s for s in inner[0].body if isinstance(s, ast.For)]
-    if len(loop) != 1:
-        raise AnalysisError('%s: line loop not found' % vt.site)
-    lv = norm(loop[0].target)
-    ctest = [s for s in loop[0].body if isinstance(s, ast.If) and any(isinstance(c, ast.Call) and norm(c.func) == 'Deb822CommentToken' for c in ast.walk(s))]
-    if len(ctest) != 1:
-        raise AnalysisError('%s: comment branch not found' % vt.site)
-    LP = strlang.pred_lang(ctest[0].test, lv, alpha)
-    want = rx.regex_lang(r'#(?s:.*)', 0, 'fullmatch', alpha=alpha)
-    w = LP.equiv_witness(want)
-    if w is None and any(norm(c) == 'Deb822CommentToken(%s)' % lv for c in ast.walk(ctest[0]) if isinstance(c, ast.Call)) \
-            and any(isinstance(s, ast.Continue) for s in ctest[0].body):
-        rep.ok('C11.R3', vt.site, 'comment lines = lines with "#" in column 0, emitted whole', 'predicate language = #Σ*')
-    else:
-        rep.fail('C11.R3', vt.site, 'comment lines = lines with "#" in column 0, emitted whole',
-                 ('the line %r is %s a comment by the list tokenizer but %s by the document parser: a value on that line disappears from the list view (and an edit '
-                  'may delete it)' % (w[1], 'treated as' if w[0] == 'left-only' else 'not treated as', 'not' if w[0] == 'left-only' else 'is')) if w else
-                 'the comment line is not emitted whole as a comment token', detail={'witness': w[1] if w else None}, where=vt.where)
+    # (which lines are comment lines -- the later lines of the value that start with '#', never the rest of the field line -- is decided per
+    # line shape by C11.R7)
     # the wrapper interpreted on a symbolic multi-line value: first line, continuation line, comment line, continuation
     # line without final newline; the wrapped tokenizer is a stub that returns one opaque token per call
     from .. import symstr
@@ -741,6 +725,182 @@ def r6_views_are_fresh(rep, src):
                                  'edits that were abandoned, instead of a fresh list built from the current field text')
 
 
+def r7_opening_a_view(rep, src):
+    """the wrapper that cuts a field value into physical lines for the list tokenizers, interpreted line by line on symbolic
+    lines (sa.heap + sa.symstr): for every line a field value can contain -- the rest of the field line (any text, also blank,
+    empty or starting with '#'), then comment lines and non-blank continuation lines -- one iteration of its loop raises nothing,
+    yields tokens whose texts concatenate to the line, takes exactly the later lines that start with '#' for comments, and hands
+    the rest of the line (without continuation marker and line end) to the list tokenizer.  The constructor of the view accepts
+    the token list of an empty value."""
+    from .. import symstr
+    from ..symstr import SStr
+    fac = src.func(TK + ':_value_line_tokenizer')
+    rep.saw_func(fac)
+    impl = [n for n in fac.node.body if isinstance(n, ast.FunctionDef)]
+    if len(impl) != 1 or len(fac.params()) != 1:
+        raise AnalysisError('%s: expected one inner function over one wrapped tokenizer' % fac.site)
+    impl = impl[0]
+    inner_name = fac.params()[0]
+    vparam = impl.args.args[0].arg
+    loops = [s_ for s_ in impl.body if isinstance(s_, ast.For)]
+    if len(loops) != 1:
+        raise AnalysisError('%s: line loop not found' % fac.site)
+    loop = loops[0]
+    itx = loop.iter
+    counter = None
+    if isinstance(itx, ast.Call) and norm(itx.func) == 'enumerate' and len(itx.args) == 1 and isinstance(loop.target, ast.Tuple) and len(loop.target.elts) == 2:
+        counter, linevar = loop.target.elts[0].id, loop.target.elts[1].id
+        itx = itx.args[0]
+    elif isinstance(loop.target, ast.Name):
+        linevar = loop.target.id
+    else:
+        raise AnalysisError('%s: loop target not understood' % fac.site)
+    if not (isinstance(itx, ast.Call) and isinstance(itx.func, ast.Attribute) and itx.func.attr == 'splitlines' and norm(itx.func.value) == vparam
+            and ((len(itx.args) == 1 and isinstance(itx.args[0], ast.Constant) and itx.args[0].value is True)
+                 or any(k.arg == 'keepends' and isinstance(k.value, ast.Constant) and k.value.value is True for k in itx.keywords))):
+        rep.fail('C11.R7', fac.site, 'the value is cut into physical lines that keep their line ends', 'the loop iterates over %s, not over %s.splitlines(keepends=True)'
+                 % (norm(loop.iter)[:60], vparam), where=fac.where)
+        return
+    pre = impl.body[:impl.body.index(loop)]
+    mod = src.mod(TK)
+    NONL = r'[^\n]'
+
+    def run(lines_of, at):
+        """lines_of(at) -> (whole value text, [line ...]); -> per line ('raise', exc, lineno) | ('tokens', [(class, text)])"""
+        value, lines = lines_of(at)
+        heap = H.Heap(mod, hooks={'sys.intern': lambda it_, a, k: a[0], 'INNER': lambda it_, a, k: it_.h.new_list([it_.h.alloc('INNER', {'text': a[0]})])})
+        heap.symbolic_strings = True
+        it = H.Interp(heap)
+        env = {vparam: value, inner_name: ('hook', 'INNER'), '#yields': []}
+        out = []
+        try:
+            it.run(pre, env, None)
+        except H.Raised as x:
+            return [('raise', x.exc, x.lineno)]
+        for no, line in enumerate(lines):
+            env['#yields'] = []
+            env[linevar] = line
+            if counter:
+                env[counter] = no
+            try:
+                r_ = it.run(loop.body, env, None)
+            except H.Raised as x:
+                out.append(('raise', x.exc, x.lineno))
+                break
+            toks = []
+            for t in env['#yields']:
+                for t1 in (it.seq(t) if heap.is_list(t) else [t]):
+                    if not isinstance(t1, H.Ref):
+                        raise AnalysisError('%s: the loop yields %r, not a token' % (fac.site, t1))
+                    cls_ = heap.objs[t1.name]['__class__']
+                    toks.append((cls_, heap.objs[t1.name]['text'] if cls_ == 'INNER' else it.ev(ast.parse('tok.text', mode='eval').body, {'tok': t1}, None)))
+            out.append(('tokens', toks))
+        return out
+    # scenarios: (label, atoms, builder, index of the examined line, is it the first line)
+    scen = [
+        ('the rest of the field line, the whole value', {'A': NONL + '*'}, lambda at: (at['A'] + '\n', [at['A'] + '\n']), 0, True),
+        ('the rest of the field line without line end, the whole value', {'A': NONL + '+'}, lambda at: (at['A'], [at['A']]), 0, True),
+        ('the rest of the field line, continuation lines follow', {'A': NONL + '*'}, lambda at: (at['A'] + '\n v\n', [at['A'] + '\n', ' v\n']), 0, True),
+        ('a comment line inside the value', {'A': NONL + '*'}, lambda at: (SStr(['x\n#']) + at['A'] + '\n v\n', ['x\n', SStr(['#']) + at['A'] + '\n', ' v\n']), 1, False),
+        ('a comment line after a blank first line', {'A': NONL + '*'}, lambda at: (SStr(['\n#']) + at['A'] + '\n v\n', ['\n', SStr(['#']) + at['A'] + '\n', ' v\n']), 1, False),
+    ]
+    NB = NONL + r'*[^\s]' + NONL + '*'
+    for mk, mname in ((' ', 'space'), ('\t', 'tab')):
+        scen += [
+            ('a continuation line (%s)' % mname, {'A': NB}, lambda at, mk=mk: (SStr(['x\n' + mk]) + at['A'] + '\n', ['x\n', SStr([mk]) + at['A'] + '\n']), 1, False),
+            ('the last continuation line, without line end (%s)' % mname, {'A': NB}, lambda at, mk=mk: (SStr(['x\n' + mk]) + at['A'], ['x\n', SStr([mk]) + at['A']]), 1, False),
+            ('a continuation line after a blank first line and a comment (%s)' % mname, {'A': NB},
+             lambda at, mk=mk: (SStr([' \n# c\n' + mk]) + at['A'] + '\n', [' \n', '# c\n', SStr([mk]) + at['A'] + '\n']), 2, False),
+        ]
+    total = 0
+    for label, atoms, build, idx, is_first in scen:
+        bad = None
+        n = 0
+
+        def body(at, build=build):
+            return run(build, at), build(at)[1]
+        for langs, (res, lines) in symstr.explore(atoms, body, depth=10):
+            n += 1
+            wit = {k: l_.witness() for k, l_ in langs.items()}
+            shown = ''.join(p_ if isinstance(p_, str) else wit.get(getattr(p_, 'name', ''), '?') for p_ in symstr.lift(lines[idx]).parts)
+            if len(res) <= idx or res[idx][0] == 'raise':
+                r_ = res[min(idx, len(res) - 1)]
+                bad = bad or '%s, e.g. %r: raises %s at line %d' % (label, shown, r_[1], r_[2])
+                continue
+            toks = res[idx][1]
+            line = symstr.lift(lines[idx])
+            cat = SStr()
+            for c_, t_ in toks:
+                cat = cat + symstr.lift(t_)
+            empty = {k for k, l_ in langs.items() if l_.not_subset_witness(symstr.lit_lang('')) is None}
+
+            def nz(s_):
+                return SStr([p_ for p_ in s_.parts if isinstance(p_, str) or getattr(p_, 'name', None) not in empty])
+            if not nz(cat).same(nz(line)):
+                bad = bad or '%s, e.g. %r: the token texts concatenate to %r, the line is %r' % (label, shown, nz(cat), nz(line))
+                continue
+            is_comment_line = (not is_first) and shown.startswith('#')
+            comment_toks = [c_ for c_, t_ in toks if c_ == 'Deb822CommentToken']
+            inner = [t_ for c_, t_ in toks if c_ == 'INNER']
+            if is_comment_line != bool(comment_toks) or (comment_toks and len(toks) != 1):
+                bad = bad or ('%s, e.g. %r: %s' % (label, shown, 'a line of the value that is not a comment line is taken for a comment: its '
+                              'values are missing from the list' if comment_toks else 'the comment line is handed to the list tokenizer'))
+                continue
+            if not is_comment_line:
+                # what the list tokenizer sees: the line without continuation marker and line end
+                want = line
+                if not is_first:
+                    want = SStr(list(want.parts[1:])) if want.parts and not isinstance(want.parts[0], str) else SStr([want.parts[0][1:]] + list(want.parts[1:]))
+                if want.parts and isinstance(want.parts[-1], str) and want.parts[-1].endswith('\n'):
+                    want = SStr(list(want.parts[:-1]) + ([want.parts[-1][:-1]] if want.parts[-1][:-1] else []))
+                if len(inner) != 1 or not nz(symstr.lift(inner[0])).same(nz(want)):
+                    bad = bad or '%s, e.g. %r: the list tokenizer is given %r instead of %r' % (label, shown, inner, nz(want))
+        total += n
+        if bad:
+            rep.fail('C11.R7', fac.site, 'every line of a field value is tokenized: ' + label, bad, where=fac.where)
+        elif n == 0:
+            raise AnalysisError('%s: no case interpreted for %s' % (fac.site, label))
+        else:
+            rep.ok('C11.R7', fac.site, 'every line of a field value is tokenized: ' + label, '%d symbolic cases' % n)
+    rep.analysed['paths'] += total
+    # the constructor of the view on the token lists of values without any item (empty value, only a line end, only blanks), then
+    # a first append: interpreted on the heap model
+    ctor = src.func(PM + ':%s.__init__' % CLS)
+    rep.saw_func(ctor)
+    for space_sep in (False, True):
+        for lay, text in (('', 'an empty value without line end'), ('N', 'an empty value'), ('P N' if space_sep else 'W N', 'a blank value')):
+            heap, _view, _lst, _nodes, _vals = build_view(src, 'V', space_sep)
+            it = H.Interp(heap)
+            toks = [heap.alloc(KINDS[ch], {'text': {'N': '\n', 'W': ' ', 'P': ' '}[ch], 'is_comment': False, 'is_whitespace': True, 'parent_element': None}) for ch in lay.split()]
+            view = heap.alloc(CLS, {})
+            what = 'a view of %s (%s-separated list, tokens [%s]) can be opened and extended' % (text, 'blank' if space_sep else 'comma', lay)
+            try:
+                it.call(H.Closure(ctor.node, {}, view, ctor.cls), [None, heap.new_list(toks), ('class', KINDS['V']), ('class', KINDS['P' if space_sep else 'S']),
+                                                                    ('hook', 'factory'), ('hook', 'sepfactory'), ('hook', 'render')])
+            except H.Raised as x:
+                rep.fail('C11.R7', ctor.site, what, 'the constructor raises %s (line %d) for the token list of %s: the list view of a field without items cannot be opened'
+                         % (x.exc, x.lineno, text), where=ctor.where)
+                continue
+            o = heap.objs[view.name]
+            o['_value_factory'] = ('hook', 'factory')
+            lst = o.get('_token_list')
+            got, kinds, problems = read_values(heap, lst)
+            if got or problems:
+                rep.fail('C11.R7', ctor.site, what, 'the new view lists %s %s' % (got, '; '.join(problems)), where=ctor.where)
+                continue
+            fn = heap.module.method(CLS, 'append')
+            try:
+                it.call(H.Closure(fn.node, {}, view, fn.cls), [H.Key('new', 'new')])
+                got, kinds, problems = read_values(heap, lst)
+            except H.Raised as x:
+                rep.fail('C11.R7', fn.site, what, 'append on the empty view raises %s (line %d)' % (x.exc, x.lineno), where=fn.where)
+                continue
+            if got != ['new'] or problems or not o.get('_changed'):
+                rep.fail('C11.R7', fn.site, what, 'after append(new) the view lists %s (changed flag %s) %s' % (got, o.get('_changed'), '; '.join(problems)), where=fn.where)
+            else:
+                rep.ok('C11.R7', ctor.site, what, 'no values; after append: %s (tokens %s)' % (got, kinds))
+
+
 def check(src, rep, tier):
     rep.explanation = ('C11: (R1) call-graph effect analysis in Deb822ParsedTokenList: methods that (transitively) mutate the token list must '
                        '(transitively) store _changed = True, read accessors must do neither, _update_field is called only from __exit__ under '
@@ -763,3 +923,5 @@ def check(src, rep, tier):
     rep.guard('C11.R3', r2_r3_tokenizers, src)
     rep.guard('C11.R4', r4_writeback, src)
     rep.guard('C11.R6', r6_views_are_fresh, src)
+    rep.need('C11.R7', 15)
+    rep.guard('C11.R7', r7_opening_a_view, src)
